@@ -36,6 +36,9 @@ def build_cases(tier, seed):
             # a client whose instructions are often unusable (wrong plug, no access): some vehicle's update fails step after
             # step while the others travel - the arrival clause is not judged in these runs, everything else is
             ctrl = hostile_stack(p=0.15, builtin=True)
+        if i % 12 == 5 and prof["network"] != "denver":
+            # a service area on both sides of the 180th meridian (journeys whose links cross it), short steps
+            prof.update({"origin": [-16.85, 180.0], "dts": [1, 7, 30], "spread": 0.006})
         cases.append(trace_case("C06", i, s, prof, ctrl, steps, ["C06"]))
     if tier == "thorough":
         for w in ("denver_downtown/denver_demo.yaml", "denver_downtown/denver_demo_fleets.yaml", "denver_downtown/denver_demo_constrained_charging.yaml"):
